@@ -8,7 +8,7 @@ for n in $names; do
   pid=${n%%-*}
   git -C /repo apply /verif/seeded/$n/patch.diff 2>/dev/null || { echo -e "$n\t$pid\tapply-failed"; continue; }
   out=$(./check $pid 2>&1); rc=$?
-  git -C /repo checkout -- .
+  git -C /repo checkout -- . && git -C /repo clean -fdq
   v=$(echo "$out" | grep -E "^VIOLATION" | head -1)
   kind="MISSED"
   case $n in *-h) kind="quiet(ok)";; esac
